@@ -146,6 +146,10 @@ def run(ctx: core.Ctx):
     kh = kill_histories(ctx)
     if kh and witness is None:
         witness = dict(kind="lifecycle-after-kills", problems=kh[:4])
+    # endings the fake transport cannot produce: the kernel resets the connection (connection_lost with an exception, under TLS too)
+    rsw = core.realsock_witness(core.realsock(ctx, ["reset"]))
+    if rsw and witness is None:
+        witness = rsw
     terms = [ls.coq_term(d) for d in drivers]
     model = core.run_coq_terms(ctx, "c10t", HEADER, terms, shard=40)
     disagreements = []
